@@ -149,7 +149,10 @@ func genC14(tier string, rng *Rng) {
 			emitCase(s, 16, stop, "eof")
 		}
 	}
+	// idle styles of the transport, read time-outs in the middle of the stream, retrying handlers (c14x.go)
+	genC14X(tier, rng)
 	genStreamCases(rng, n, 80)
+	genC14XRandom(tier, rng)
 }
 
 // genStreamCases: random streams served with StreamRequestBody and a consumption program.
